@@ -204,8 +204,20 @@ def main(pid="C04", rep=None, finish=True):
                                     formula = "ServedOnlyIfAllAdmit"
                                 elif la["status"] in ("20", "51", "44") and got in ("20", "51", "44"):
                                     formula = "RefusedDoNotConsume"       # the allowance differs: some refused request consumed (or did not)
-                                rep.violation({"formula": formula, "want": la["status"], "got": got},
-                                              "%s falsified: assembled chain answered %s, specification %s, after %s" % (formula, got, la["status"], hist), None)
+                                served = ("20", "51")
+                                if pid == "C05":
+                                    # C05's part of the chain: delivered only if the rule admits; 60 / 61 as the rule says
+                                    relevant = (la["status"] in ("60", "61")) or (got in ("60", "61"))
+                                elif pid == "C10":
+                                    # C10's part: who is admitted and who is told 44 (the allowance)
+                                    relevant = la["status"] in served + ("44",) and got in served + ("44",)
+                                else:
+                                    relevant = True
+                                msg = "%s falsified: assembled chain answered %s, specification %s, after %s" % (formula, got, la["status"], hist)
+                                if relevant:
+                                    rep.violation({"formula": formula, "want": la["status"], "got": got}, msg, None)
+                                else:
+                                    rep.drifted("assembled chain departs from Chain.tla outside %s's clauses: %s" % (pid, msg))
                                 break
                         prev = st
                     else:
@@ -216,7 +228,14 @@ def main(pid="C04", rep=None, finish=True):
                         for pth, ok in (("prot", ("", "61")), ("any", ("", "20", "44", "51"))):
                             got = asm.request("a", pth, "cw")
                             steps += 1
-                            if got not in ok and got != "60":
+                            if pid != "C04":
+                                # identity shown to the chain is C04's clause; for C05 the client got 60 / 61 or nothing - fine
+                                if got in ("20", "51") and pth == "prot":
+                                    rep.violation({"formula": "ServedOnlyIfAllAdmit", "uninterpretable_cert": True, "got": got},
+                                                  "ServedOnlyIfAllAdmit falsified: a certificate that is not on the list (X.509 version field 3) was served %s" % PATH[pth], None)
+                                elif got not in ok:
+                                    rep.drifted("uninterpretable client certificate asking for %s answered %r" % (PATH[pth], got))
+                            elif got not in ok and got != "60":
                                 rep.drifted("a client presenting a certificate with X.509 version field 3 asking for %s was answered %r (neither dropped nor the verdict of its own fingerprint, nor the no-certificate verdict)" % (PATH[pth], got))
                             elif got not in ok:
                                 rep.violation({"formula": "ConsultedWithRealIdentity", "uninterpretable_cert": True, "got": got},
